@@ -99,7 +99,7 @@ def run(rep: engine.Report, tier: str, seed: int):
     budget = 1500 if tier == "quick" else len(cases)
     sel = engine.stratified_sample(cases, lambda c: (tuple(n % 2 for n in c["cfg"]["s"]), json.dumps(c["cfg"]["c"]), c["cfg"]["order"], min(c["cfg"]["s"]) == 1), budget, seed)
     rep.exhaustive = len(sel) == len(cases)
-    memo.run_family(rep, ["lowpass_utils", "highpass_utils", "lowpass_backend", "lowpass_backend_ft"], hazards=True)
+    memo.run_family(rep, ["lowpass_utils", "highpass_utils", "low_high_utils", "lowpass_backend", "lowpass_backend_ft"], hazards=True)
     results = engine.parallel_replay("harness.props.c16", "replay", sel)
     engine.collect(rep, sel, results, key=lambda c: c["cfg"])
     rep.traces_validated = rep.evaluations
